@@ -190,7 +190,8 @@ class C16(PropCheck):
     search_seeds = 3
     level_text = ("Lean theorems over a micro-step model of pki revocation and CRL building (revoked_everywhere, "
                   "crl_number_increasing, revoke_idempotent, revoke_preserves_others, served_crl_lists_serial, revoke_restart "
-                  "for every crash prefix, revoke_fault_retry_partial / _cex for finding F5); the model is tied to the Go code "
+                  "for every crash prefix, revoke_fault_retry for every fault position / crash prefix followed by a retry "
+                  "(findings F5/F16, repaired by e3ecbb3), crl_number_reuse_cex for finding F17); the model is tied to the Go code "
                   "by a differential stream of random histories, all single-fault positions and all crash prefixes of "
                   "revoke / rotate on every run, and the property's predicate is evaluated directly on every CRL the "
                   "implementation writes or serves and on every status / OCSP answer")
